@@ -274,3 +274,122 @@ pub fn admin(ex: &mut Exec, a: &AdminOp, pending: bool) {
 		ex.sweep();
 	}
 }
+
+// ---------------------------------------------------------------------------------------------
+// C20: migration
+
+pub fn migrate(ex: &mut Exec, dest: &[(String, u8)], overwrite: bool, force: &[u8], pending: bool) {
+	if !ex.has_db() || crate::treeops::any_locked(ex) || dest.len() != ex.col_kinds.len() {
+		return
+	}
+	ex.stats.probe("migrate_ops");
+	let n = ex.hist.len() - 1;
+	let lo = ex.n_synced;
+	let hi = ex.logged();
+	// 1. the source: cleanly closed, or a copy that still has unreplayed logs
+	let src = if pending {
+		let live = ex.live.clone();
+		let img = ex.next_dir("migsrc");
+		simdisk::muted(|| simdisk::copy_dir(&live, &img, true));
+		ex.abandon();
+		simdisk::muted(|| {
+			let _ = std::fs::remove_dir_all(&live);
+		});
+		img
+	} else {
+		ex.close();
+		ex.mark_restart();
+		ex.live.clone()
+	};
+	if pending {
+		// settle which prefix the source holds (opening replays its logs)
+		ex.live = src.clone();
+		match ex.verify_and_adopt(&src, lo, hi, "open of the migration source with unreplayed logs", false) {
+			Some(_) => {
+				ex.close();
+				ex.mark_restart();
+			},
+			None => return,
+		}
+	}
+	let _ = n;
+	let model_before: Vec<ColModel> = ex.cur.clone();
+	let src_hash_before = dir_hash(&src);
+	// 2. destination options
+	let dst = ex.next_dir("migdst");
+	let mut to = ex.options_for(&dst);
+	let mut new_cfgs = ex.col_cfgs.clone();
+	let mut new_kinds = ex.col_kinds.clone();
+	for (i, (k, comp)) in dest.iter().enumerate() {
+		let kind = ColKind::parse(k);
+		new_kinds[i] = kind;
+		new_cfgs[i].kind = kind;
+		new_cfgs[i].compression = *comp;
+		to.columns[i] = column_options(&new_cfgs[i]);
+	}
+	let r = parity_db::migrate(std::path::Path::new(&src), to.clone(), overwrite, force);
+	if let Err(e) = r {
+		ex.push_violation("C20", "migrate-failed", format!("migrate returned {e}"));
+		return
+	}
+	// 3. expected content of the destination: every key with its value and count
+	let mut expect = model_before.clone();
+	for (i, kind) in new_kinds.iter().enumerate() {
+		if let ColModel::Kv(m) = &mut expect[i] {
+			if !kind.is_rc() {
+				for v in m.map.values_mut() {
+					v.1 = 1;
+				}
+			}
+		}
+	}
+	// 4. the source must be unchanged unless overwrite was requested
+	if !overwrite {
+		let after = dir_hash(&src);
+		if after != src_hash_before {
+			ex.stats.probe("migrate_source_bytes_changed");
+		}
+		// logical content through a reopen with the old options
+		ex.live = src.clone();
+		simdisk::with(|d| d.set_root(&src));
+		if ex.reopen_quiet() {
+			ex.stats.probe("migrate_source_reopened");
+			let before = ex.viol.len();
+			ex.sweep();
+			ex.drained_checks();
+			if ex.viol.len() > before {
+				for v in ex.viol.iter_mut().skip(before) {
+					v.prop = "C20".into();
+					v.class = format!("source-changed:{}", v.class);
+				}
+				return
+			}
+			ex.close();
+		} else {
+			ex.push_violation("C20", "source-unopenable", format!("the migration source cannot be opened any more: {}", ex.last_open_error));
+			return
+		}
+	}
+	// 5. switch to the destination (or the overwritten source) with the new options
+	let target = if overwrite { src.clone() } else { dst.clone() };
+	ex.col_kinds = new_kinds;
+	ex.col_cfgs = new_cfgs;
+	ex.cur = expect;
+	let st: State = Arc::new(ex.cur.clone());
+	ex.hist = vec![st];
+	ex.collapse_history();
+	ex.resize_cols();
+	ex.live = target.clone();
+	simdisk::with(|d| d.set_root(&target));
+	if !ex.reopen_quiet() {
+		ex.push_violation("C20", "destination-unopenable", format!("the migrated database cannot be opened: {}", ex.last_open_error));
+		return
+	}
+	let before = ex.viol.len();
+	ex.sweep();
+	ex.drained_checks();
+	for v in ex.viol.iter_mut().skip(before) {
+		v.prop = "C20".into();
+		v.class = format!("destination:{}", v.class);
+	}
+}
